@@ -5,7 +5,8 @@ PROP = "C30"
 RULE = (
     "models read from Engine-B texts (all syntax forms incl. FString/FComponent with conversion, = and nested specs, t-strings, "
     "bracket strings, keywords incl. the empty one, empty sequences, symbols that look special: unquote, None, ..., hyx_XaX, quote) "
-    "and the same models re-assembled by constructors without positions. Oracle: hy.eval(Expression([Symbol('quote'), m])) is "
+    "and the same models re-assembled by constructors without positions, plus copies whose f-string attributes take edge values "
+    "the reader never produces (brackets / conversion / expression = empty string, is_tstring flipped on inner fields). Oracle: hy.eval(Expression([Symbol('quote'), m])) is "
     "node-by-node equal to m: same type, value (NaN == NaN), brackets, conversion, expression, is_tstring. Non-trivial = the model "
     "has an extra attribute somewhere (FString, FComponent, bracket string) or is a sequence of depth >= 2; distinct by source text"
 )
@@ -38,6 +39,34 @@ def strip_positions(m):
     return m
 
 
+def edge_attributes(m, which):
+    """a position-free copy of m in which the extra attributes of f-string models take edge values the reader never produces
+    but the constructors accept: which = 0 -> empty strings, 1 -> the other values flipped"""
+    import hy.models as M
+
+    if isinstance(m, M.FComponent):
+        kids = [edge_attributes(x, which) for x in m]
+        if which == 0:
+            return M.FComponent(kids, conversion="", expression="", is_tstring=m.is_tstring)
+        return M.FComponent(kids, conversion=m.conversion or "r", expression=(m.expression or "") + " ", is_tstring=not m.is_tstring)
+    if isinstance(m, M.FString):
+        kids = [edge_attributes(x, which) for x in m]
+        if which == 0:
+            return M.FString(kids, brackets="", is_tstring=m.is_tstring)
+        return M.FString(kids, brackets=m.brackets, is_tstring=not m.is_tstring)
+    if isinstance(m, M.Sequence):
+        return type(m)([edge_attributes(x, which) for x in m])
+    if isinstance(m, M.String) and m.brackets is None and which == 0 and "]]" not in (str(m) + "]") and "\r" not in m:
+        return M.String(str(m), brackets="")
+    return strip_positions(m)
+
+
+def has_fmodel(m):
+    import hy.models as M
+
+    return isinstance(m, (M.FString, M.FComponent)) or (isinstance(m, M.Sequence) and any(has_fmodel(x) for x in m))
+
+
 def check_model(m, src, tag):
     import hy
     import hy.models as M
@@ -65,6 +94,15 @@ def check_case(case):
         r = check_model(m, rd.text, "") or check_model(strip_positions(m), rd.text, ":constructed")
         if r:
             return r
+        if has_fmodel(m):
+            for which in (0, 1):
+                try:
+                    e = edge_attributes(m, which)
+                except ValueError:
+                    continue
+                r = check_model(e, rd.text, ":edge-attributes")
+                if r:
+                    return r
     return None
 
 
